@@ -18,11 +18,25 @@ import (
 )
 
 const (
-	repoDir    = "/repo"
-	repoMod    = "github.com/openziti/storage"
-	verifDir   = "/verif"
-	harnessDir = "/verif/harness"
+	repoDir = "/repo"
+	repoMod = "github.com/openziti/storage"
 )
+
+// verifDir: the directory the check is run from (./check does cd there), so
+// that a snapshot of /verif uses its own harness files and evidence directory.
+var (
+	verifDir   = detectVerifDir()
+	harnessDir = verifDir + "/harness"
+)
+
+func detectVerifDir() string {
+	if wd, err := os.Getwd(); err == nil {
+		if st, err := os.Stat(filepath.Join(wd, "harness", "verifrt")); err == nil && st.IsDir() {
+			return wd
+		}
+	}
+	return "/verif"
+}
 
 // overlayFiles maps virtual paths under /repo to real files under /verif/harness.
 // harness/<pkg>/x.go -> /repo/<pkg>/zz_verif_x.go ; harness/verifrt/** -> /repo/verifrt/**
